@@ -11,7 +11,7 @@ COQ_CASE_TYPE = "case08"
 SHARD = 300
 RULE = ("segments whose endpoints are drawn from all 9x9 region pairs around the rectangle (inside, beyond one edge, beyond a corner, exactly on an edge / corner), "
         "on small integer, half-integer, random rational, large (1e15) and tiny (2^-30) grids; degenerate (zero-length, vertical, horizontal) segments, "
-        "zero-area rectangles; arguments as nested lists or nested tuples, and (lists) the same segment object clipped twice; each case is run on Fractions (compared exactly with the model and the exact spec) and on floats (judged by the sandwich checker "
+        "zero-area rectangles; float segments nearly parallel to an edge with 0-3 ulps of extent across it; arguments as nested lists or nested tuples, and (lists) the same segment object clipped twice; each case is run on Fractions (compared exactly with the model and the exact spec) and on floats (judged by the sandwich checker "
         "with eps = 1e-9 x coordinate scale); non-trivial = at least one endpoint outside the rectangle")
 TRUSTED = ["python Fraction arithmetic = exact rational arithmetic", "the float judgement (sandwich checker in Corr/C08.v): its exact reference interval is proved correct (C08_reference_interval); the eps-arithmetic around it is an executable specification"]
 ASSUMPTIONS = ["finite coordinates; xmin <= xmax and ymin <= ymax"]
@@ -66,6 +66,26 @@ def generate(rng, tier):
         if _passes(seg, (xmin, xmax, ymin, ymax)) >= 4:
             want -= 1
             cases.append({"seg": [F(v) for v in seg], "rect": [F(xmin), F(xmax), F(ymin), F(ymax)], "exact": False, "family": "precision-limit/through-corner", "style": 0})
+    # float segments nearly parallel to an edge of the rectangle, 0-3 ulps of extent across it, lying on / straddling / next to that edge
+    # and leaving the rectangle along it: whatever formula computes the new vertex, it must stay on the input segment
+    import math
+    def ulps(v, k):
+        for _ in range(abs(k)): v = math.nextafter(v, math.inf if k > 0 else -math.inf)
+        return v
+    for _ in range(40 if tier == "quick" else 1500):
+        xmin, ymin = rng.choice([0.0, 0.1, -3.7, 1 / 3]), rng.choice([0.0, 0.25, -1.1])
+        xmax, ymax = rng.choice([300.0, 430.0, 500.0, 11.81, 1023.5, 7.3]), rng.choice([200.0, 8.58, 299.99, 64.0, 5.1])
+        if xmax <= xmin or ymax <= ymin: continue
+        vertical = rng.random() < 0.5
+        edge = rng.choice([xmin, xmax]) if vertical else rng.choice([ymin, ymax])
+        a = ulps(edge, rng.choice([0, 0, 1, -1, 2, -2])); b = ulps(a, rng.choice([1, -1, 2, -2, 3, 0]))
+        lo, hi = (ymin, ymax) if vertical else (xmin, xmax)
+        span = hi - lo
+        u1 = rng.choice([lo + span * rng.uniform(0.05, 0.95), lo - span * rng.uniform(0.1, 2), hi + span * rng.uniform(0.1, 2)])
+        u2 = rng.choice([lo + span * rng.uniform(0.05, 0.95), lo - span * rng.uniform(0.1, 2), hi + span * rng.uniform(0.1, 2), hi + 50.0, lo - 50.0])
+        seg = [a, u1, b, u2] if vertical else [u1, a, u2, b]
+        cases.append({"seg": [F(v) for v in seg], "rect": [F(xmin), F(xmax), F(ymin), F(ymax)], "exact": False,
+                      "family": "nearly-parallel-to-edge/%s" % ("vertical" if vertical else "horizontal"), "style": rng.choice([0, 1, 2])})
     return cases
 
 def _passes(seg, rect):
